@@ -491,7 +491,7 @@ macro_rules! fake {
                  panic!("Fake function defined at {}:{}:{} called with unexpected arguments", file!(), line!(), column!());
              }
          }
-         let f: fn($($arg_ty),*) -> $ret = fake;
+         let f: fn($($arg_ty),*) -> () = fake;
          let raw_ptr = f as *const ();
          (unsafe { FuncPtr::new(raw_ptr, std::any::type_name_of_val(&f)) }, verifier)
     }};
@@ -515,7 +515,7 @@ macro_rules! fake {
                  panic!("Fake function defined at {}:{}:{} called with unexpected arguments", file!(), line!(), column!());
              }
          }
-         let f: fn($($arg_ty),*) -> $ret = fake;
+         let f: fn($($arg_ty),*) -> () = fake;
          let raw_ptr = f as *const ();
          (unsafe { FuncPtr::new(raw_ptr, std::any::type_name_of_val(&f)) }, verifier)
     }};
